@@ -184,6 +184,10 @@ def check(ctx):
             if const(b["M_v"]) is not None and f is not gt:
                 bad.append(f"{qn}: {unparse(n)}")
     ctx.ob("OWN.task-token", ts.site(task.node), "only _get_token fills the token cache", not bad, "; ".join(bad))
+    # node equality is token equality: the injectivity rules over dask/tokenize.py (C12) are part of it
+    from . import C12
+
+    C12.check(ctx)
 
 
 VARIANTS = [
